@@ -69,6 +69,13 @@ Theorem c05_bmax_tight : forall t, wf_ty t = true -> noslack t = true ->
 Proof. exact bmax_tight. Qed.
 Print Assumptions c05_bmax_tight.
 
+(* ... and so is the MINIMUM: for every well-formed type whose nested delimited types have an empty minimal body there is a valid value
+   (empty variable-length arrays, a union option of minimal size) whose serialization is exactly bmin t bits long *)
+Theorem c05_bmin_tight : forall t, wf_ty t = true -> nominslack t = true ->
+  exists v b, enc_body t v = Ok b /\ length b = bmin t /\ valid_val t v = true.
+Proof. exact bmin_tight. Qed.
+Print Assumptions c05_bmin_tight.
+
 (* advertised buffer size <= advertised extent *)
 Theorem c05_max_le_extent : forall tg t qb qe, In tg buffer_targets -> wf_ty t = true -> is_comp t = true ->
   exported tg KBufferBytes t = Some qb -> exported tg KExtentBytes t = Some qe -> 0 <= qb <= qe.
